@@ -64,19 +64,14 @@ fn first_repo_frame(bt: &str) -> String {
         let l = line.trim();
         if let Some(pos) = l.find(": ") {
             let f = &l[pos + 2..];
-            if (f.starts_with("agdb::") || f.starts_with("<agdb::") || f.starts_with("agdb_")) && !f.contains("verif") {
-                // strip generic arguments and hashes
-                let mut out = String::new();
-                let mut depth = 0;
-                for c in f.chars() {
-                    match c {
-                        '<' => depth += 1,
-                        '>' => depth -= 1,
-                        _ if depth == 0 => out.push(c),
-                        _ => {}
-                    }
-                }
-                return out.replace("::::", "::");
+            let in_repo = f.starts_with("agdb") || f.starts_with("<agdb") || (f.starts_with('<') && f.contains(" as agdb"));
+            if in_repo && !f.contains("verif") {
+                // the first frame inside the code under test; drop the symbol hash
+                let f = match f.rfind("::h") {
+                    Some(p) if f.len() - p == 19 => &f[..p],
+                    _ => f,
+                };
+                return f.to_string();
             }
         }
     }
@@ -109,8 +104,11 @@ pub fn child_info() -> Option<ChildInfo> {
     })
 }
 
-#[derive(Serialize, Deserialize, Default)]
+#[derive(Serialize, Deserialize, Default, Clone)]
 pub struct Partial {
+    /// cases of the running campaign finished so far (progress files only)
+    #[serde(default)]
+    pub done_cases: u32,
     pub evaluations: u64,
     pub nontrivial: Vec<u64>,
     pub labels: BTreeMap<String, u64>,
@@ -129,6 +127,8 @@ pub struct Partial {
 struct Child {
     index: usize,
     restart: u32,
+    /// cases finished by earlier incarnations of this child
+    done_before: u32,
     proc: std::process::Child,
     out: String,
     case_log: String,
@@ -137,7 +137,7 @@ struct Child {
     last_case_stamp: Option<std::time::SystemTime>,
 }
 
-fn spawn(id: &str, tier: Tier, seed: u64, index: usize, total: usize, restart: u32, dir: &std::path::Path) -> Child {
+fn spawn(id: &str, tier: Tier, seed: u64, index: usize, total: usize, restart: u32, dir: &std::path::Path, done_before: u32) -> Child {
     let out = dir.join(format!("partial-{index}-{restart}.json")).to_string_lossy().to_string();
     let case_log = dir.join(format!("case-{index}-{restart}.json")).to_string_lossy().to_string();
     let stderr_path = dir.join(format!("stderr-{index}-{restart}.txt")).to_string_lossy().to_string();
@@ -155,6 +155,7 @@ fn spawn(id: &str, tier: Tier, seed: u64, index: usize, total: usize, restart: u
         .env("VERIF_LOG_CASE", &case_log)
         .env("VERIF_ALLOC_CAP", DEFAULT_CAP.to_string())
         .env("VERIF_WORKERS", "1")
+        .env("VERIF_CASES_DONE", done_before.to_string())
         .stdout(std::process::Stdio::null())
         .stderr(stderr)
         .spawn()
@@ -162,6 +163,7 @@ fn spawn(id: &str, tier: Tier, seed: u64, index: usize, total: usize, restart: u
     Child {
         index,
         restart,
+        done_before,
         proc,
         out,
         case_log,
@@ -177,8 +179,11 @@ fn spawn(id: &str, tier: Tier, seed: u64, index: usize, total: usize, restart: u
 pub fn supervise(ctx: &mut Ctx, campaign: &str, watchdog: u64, max_restarts: u32) {
     let dir = fresh_dir("children");
     let total = ctx.workers.max(1);
-    let mut running: Vec<Child> = (0..total).map(|i| spawn(&ctx.id, ctx.tier, ctx.seed, i, total, 0, &dir)).collect();
+    let mut running: Vec<Child> = (0..total).map(|i| spawn(&ctx.id, ctx.tier, ctx.seed, i, total, 0, &dir, 0)).collect();
     let mut respawns = 0u32;
+    // a child that dies is replaced by one that continues with the remaining cases of its share;
+    // the budget only guards against a child that cannot make progress at all
+    let max_respawns = max_restarts.max(1) * 400 * total as u32;
     while !running.is_empty() {
         std::thread::sleep(Duration::from_millis(20));
         let mut next = vec![];
@@ -202,17 +207,17 @@ pub fn supervise(ctx: &mut Ctx, campaign: &str, watchdog: u64, max_restarts: u32
                             let path = save_replay(&ctx.id, &format!("{campaign}-undecided"), &case, &Fail::new("undecided: case exceeded the per-case watchdog", format!("killed after {watchdog} s")));
                             ctx.undecided_samples.push(serde_json::json!({"replay": path}));
                         }
-                        merge_partial(ctx, &c.out);
-                        if respawns < max_restarts * total as u32 {
+                        let done = merge_partial(ctx, &c.out) + 1;
+                        if respawns < max_respawns {
                             respawns += 1;
-                            next.push(spawn(&ctx.id, ctx.tier, ctx.seed, c.index, total, c.restart + 1 + respawns, &dir));
+                            next.push(spawn(&ctx.id, ctx.tier, ctx.seed, c.index, total, c.restart + 1, &dir, c.done_before + done));
                         }
                     } else {
                         next.push(c);
                     }
                 }
                 Ok(Some(status)) => {
-                    merge_partial(ctx, &c.out);
+                    let done = merge_partial(ctx, &c.out) + 1;
                     // scratch space of a child that died is removed by the supervisor
                     let base = std::env::var("VERIF_SCRATCH").unwrap_or_else(|_| "/tmp".into());
                     let _ = std::fs::remove_dir_all(std::path::Path::new(&base).join(format!("verif-{}", c.proc.id())));
@@ -249,10 +254,13 @@ pub fn supervise(ctx: &mut Ctx, campaign: &str, watchdog: u64, max_restarts: u32
                             fail
                         };
                         ctx.evaluations += 1;
-                        ctx.record_failure(campaign, &case, &fail);
-                        if respawns < max_restarts * total as u32 {
+                        let known = ctx.record_failure(campaign, &case, &fail);
+                        // an unlisted process-level failure is reported once per signature; the
+                        // campaign still continues behind it
+                        let _ = known;
+                        if respawns < max_respawns {
                             respawns += 1;
-                            next.push(spawn(&ctx.id, ctx.tier, ctx.seed, c.index, total, c.restart + 1 + respawns, &dir));
+                            next.push(spawn(&ctx.id, ctx.tier, ctx.seed, c.index, total, c.restart + 1, &dir, c.done_before + done));
                         }
                     }
                 }
@@ -280,11 +288,15 @@ fn tail_of(s: &str, n: usize) -> String {
     }
 }
 
-fn merge_partial(ctx: &mut Ctx, path: &str) {
-    let p: Partial = match std::fs::read_to_string(path).ok().and_then(|s| serde_json::from_str(&s).ok()) {
+/// Merges the final partial result of a child, or its last progress file if it died before
+/// writing one. Returns the number of campaign cases the child finished (progress files only).
+fn merge_partial(ctx: &mut Ctx, path: &str) -> u32 {
+    let read = |p: &str| -> Option<Partial> { std::fs::read_to_string(p).ok().and_then(|s| serde_json::from_str(&s).ok()) };
+    let p: Partial = match read(path).or_else(|| read(&format!("{path}.progress"))) {
         Some(p) => p,
-        None => return,
+        None => return 0,
     };
+    let done_cases = p.done_cases;
     ctx.evaluations += p.evaluations;
     ctx.nontrivial.extend(p.nontrivial);
     for (k, v) in p.labels {
@@ -325,10 +337,19 @@ fn merge_partial(ctx: &mut Ctx, path: &str) {
     if ctx.assumptions.is_empty() {
         ctx.assumptions = p.assumptions;
     }
+    done_cases
 }
 
 pub fn write_partial(ctx: &Ctx, out: &str) {
-    let p = Partial {
+    let p = snapshot(ctx);
+    let tmp = format!("{out}.tmp");
+    let _ = std::fs::write(&tmp, serde_json::to_string(&p).unwrap_or_default());
+    let _ = std::fs::rename(&tmp, out);
+}
+
+pub fn snapshot(ctx: &Ctx) -> Partial {
+    Partial {
+        done_cases: 0,
         evaluations: ctx.evaluations,
         nontrivial: ctx.nontrivial.iter().cloned().collect(),
         labels: ctx.labels.clone(),
@@ -342,8 +363,5 @@ pub fn write_partial(ctx: &Ctx, out: &str) {
         rule: ctx.rule.clone(),
         level: ctx.level.clone(),
         assumptions: ctx.assumptions.clone(),
-    };
-    let tmp = format!("{out}.tmp");
-    let _ = std::fs::write(&tmp, serde_json::to_string(&p).unwrap_or_default());
-    let _ = std::fs::rename(&tmp, out);
+    }
 }
